@@ -135,12 +135,18 @@ fn main() {
     sum.rule = "case = (source items with at most one injected Err, adapter chain of depth 0..3 over {filter,map,filter_map}, consumer {try_for_each, step-wise try_for_some, for_each}, optional sink fault position); \
 plus triple-level cases: sources {iterator, N-Triples parser with a syntax error at statement k, store}, sinks {insert_all into a capacity-limited store, remove_all, collect, N-Triples serializer on a failing writer}; \
 plus concrete-end cases: generated N-Triples / N-Quads documents (valid statements with varied spacing and escapes, blank / comment / CR lines, malformed lines at generated positions, last line with or without LF) read by sophia_turtle::parser::{nt,nq} through a chunked Read probe, adapter chains of depth 0..3 over statements, consumers {recording closure failing at item j, insert_all into set datasets, Nt/Nq serializer over a byte-budget / all-or-nothing / Ok(0) io::Write probe}, and the parser pulled on after the failure to observe where it stopped; \
-non-trivial = a fault is actually hit after at least one item was consumed, or a filter dropped something; distinct = distinct printed case".into();
+plus (ids from 1000000) bulk cases: the provided methods insert_all / remove_all / remove_matching / retain_matching / add_to_graph / add_to_dataset on user-defined stores that journal every insert / remove call (set or multiset, remove one or all occurrences, failing on the k-th call, failing while listed), directly, through &mut, GraphAsDataset (as_dataset_mut / into_dataset / new), DatasetGraph (graph_mut / new) and nestings of them, with named quads offered to default-graph-only consumers; and flush cases: {Nt, Nq, Turtle, TriG (plain and pretty), RDF/XML, JSON-LD} serializers over writers failing in write and/or flush (bare, &mut, BufWriter, LineWriter) with a source failing at item k, judged by the order of events in a log shared by source and writer; non-trivial = a fault is actually hit after at least one item was consumed, or a filter dropped something; distinct = distinct printed case".into();
     let base = Rng::new(a.seed);
     let mut cases: Vec<(usize, String)> = vec![];
     let mut seen = std::collections::HashSet::new();
     let all_ads = [AD::FilterEven, AD::FilterLt(5), AD::FilterNone, AD::FilterAll, AD::MapSucc, AD::MapDouble, AD::MapConst(4), AD::FilterMapHalf, AD::FilterMapLtSucc(6)];
-    let range: Vec<usize> = match a.only { Some(i) => vec![i], None => (0..a.n).collect() };
+    let range: Vec<usize> = match a.only { Some(i) if i < 1_000_000 => vec![i], Some(_) => vec![], None => (0..a.n).collect() };
+    // the second family of cases (ids from 1_000_000 on): bulk methods call by call / consumers behind adapters / serializers and flush
+    let extra: Vec<usize> = match a.only { Some(i) if i >= 1_000_000 => vec![i], Some(_) => vec![], None => (0..a.n / 3).map(|j| 1_000_000 + j).collect() };
+    for idx in extra {
+        let mut r = base.fork(idx as u64);
+        if (idx - 1_000_000) % 5 < 3 { bulk::case(idx, &mut r, a.only.is_some(), &mut sum, &mut cases, &mut seen); } else { flushy::case(idx, &mut r, a.only.is_some(), &mut sum, &mut cases, &mut seen); }
+    }
     for idx in range {
         let mut r = base.fork(idx as u64);
         let flavour = idx % 6; // 0,1,2: generic pipeline; 3: triple-level; 4,5: concrete ends (documents -> Rio parser -> quad adapters -> closure / insert_all / serializer on a probe writer)
@@ -366,7 +372,7 @@ non-trivial = a fault is actually hit after at least one item was consumed, or a
         sum.evaluations += 1;
     }
     if a.only.is_none() {
-        sum.shards = write_shards(&a.out, "From Sophia.Common Require Import Prelude Term.\nFrom Sophia.C03 Require Import Model.\nFrom Sophia.C15 Require Import Model Generic ParserSource SerializerSink EndToEnd.", &cases, a.shards);
+        sum.shards = write_shards(&a.out, "From Sophia.Common Require Import Prelude Term.\nFrom Sophia.C03 Require Import Model.\nFrom Sophia.C15 Require Import Model Generic ParserSource SerializerSink EndToEnd Bulk.", &cases, a.shards);
         sum.extra.push(("coq_cases".into(), cases.len().to_string()));
         std::fs::write(format!("{}/summary.json", a.out), sum.to_json()).unwrap();
     }
@@ -756,5 +762,616 @@ mod concrete {
         let exp = if writer_fails(wd, total) { match wd { WD::Zero { .. } => POut::SinkWriteZero, WD::Budget { code, .. } | WD::Atomic { code, .. } => POut::Sink(*code) } } else { POut::Done };
         if *out != exp { problems.push(format!("outcome {out:?}, expected {exp:?}")); }
         for p in problems { sum.oracle_failures.push((idx.to_string(), format!("{text}: {p}"))); }
+    }
+}
+
+
+// =====================================================================================================================
+/// Case ids from 1_000_000 on.
+///  * `bulk`: the PROVIDED bulk methods (insert_all, remove_all, remove_matching, retain_matching, add_to_graph,
+///    add_to_dataset) driven on user-defined stores that journal every individual insert / remove call, keep
+///    duplicates or not, fail on their k-th call or while they are enumerated -- directly, through `&mut`, and
+///    through the adapters of other modules (GraphAsDataset, DatasetGraph, nested);
+///  * `flushy`: every serializer over writers failing in write, in flush or in both (bare, behind BufWriter /
+///    LineWriter), combined with a source failing at item k; one event log shared by source and writer gives the
+///    order of the failures.
+mod bulk {
+    use sophia_api::dataset::adapter::{GraphAsDataset, GraphAsDatasetMutationError};
+    use sophia_api::graph::adapter::DatasetGraph;
+    use sophia_api::prelude::*;
+    use sophia_api::quad::Spog;
+    use sophia_api::source::{QuadSource, Source, StreamError, StreamResult, TripleSource};
+    use sophia_api::term::matcher::{GraphNameMatcher, TermMatcher};
+    use sophia_api::term::{GraphName, IriRef, LanguageTag, SimpleTerm, TermKind};
+    use sophia_api::MownStr;
+    use std::cell::{Cell, RefCell};
+    use std::collections::{BTreeSet, VecDeque};
+    use std::rc::Rc;
+    use verif_harness::*;
+
+    pub const ONLY_DEFAULT: u64 = 9000;
+    // an item is a number: 1000 * g + n; g = 0 is the default graph, n is the object, the subject is s{n mod 3}
+    pub fn gname(x: u64) -> u64 { x / 1000 }
+    pub fn tpart(x: u64) -> u64 { x % 1000 }
+    fn g_term(g: u64) -> Option<ST> { if g == 0 { None } else { Some(iri(&format!("http://e/g{g}"))) } }
+    fn s_term(k: u64) -> ST { iri(&format!("http://e/s{k}")) }
+    fn o_term(n: u64) -> ST { lit_dt(&n.to_string(), &format!("{XSD}integer")) }
+    fn spo_of(n: u64) -> [ST; 3] { [s_term(n % 3), iri("http://e/p"), o_term(n)] }
+    pub fn quad_of(x: u64) -> Spog<ST> { (spo_of(tpart(x)), g_term(gname(x))) }
+    /// a user-defined Copy term: the stores below yield these (DatasetGraph / graph_mut need a graph name whose
+    /// borrowed form is the term type of the dataset)
+    #[derive(Clone, Copy, Debug, PartialEq)]
+    pub enum CT { S(u64), P, O(u64), G(u64) }
+    impl Term for CT {
+        type BorrowTerm<'x> = CT;
+        fn kind(&self) -> TermKind { match self { CT::O(_) => TermKind::Literal, _ => TermKind::Iri } }
+        fn iri(&self) -> Option<IriRef<MownStr>> { match self { CT::S(k) => Some(IriRef::new_unchecked(MownStr::from(format!("http://e/s{k}")))), CT::P => Some(IriRef::new_unchecked(MownStr::from("http://e/p"))), CT::G(g) => Some(IriRef::new_unchecked(MownStr::from(format!("http://e/g{g}")))), CT::O(_) => None } }
+        fn lexical_form(&self) -> Option<MownStr> { match self { CT::O(n) => Some(MownStr::from(n.to_string())), _ => None } }
+        fn datatype(&self) -> Option<IriRef<MownStr>> { match self { CT::O(_) => Some(IriRef::new_unchecked(MownStr::from(format!("{XSD}integer")))), _ => None } }
+        fn language_tag(&self) -> Option<LanguageTag<MownStr>> { None }
+        fn borrow_term(&self) -> CT { *self }
+    }
+    fn ct_spo(n: u64) -> [CT; 3] { [CT::S(n % 3), CT::P, CT::O(n)] }
+    fn ct_quad(x: u64) -> Spog<CT> { (ct_spo(tpart(x)), if gname(x) == 0 { None } else { Some(CT::G(gname(x))) }) }
+    fn ct_g(g: u64) -> Option<CT> { if g == 0 { None } else { Some(CT::G(g)) } }
+    fn n_of<T: Term>(o: T) -> u64 { o.lexical_form().unwrap().parse().unwrap() }
+    fn g_of<T: Term>(g: Option<T>) -> u64 { match g { None => 0, Some(t) => t.iri().unwrap().as_str().strip_prefix("http://e/g").unwrap().parse().unwrap() } }
+
+    // ---------- the journaling store ----------
+    #[derive(Clone, Debug, PartialEq)]
+    pub enum Call { Ins(u64), Rem(u64) }
+    #[derive(Clone, Debug)]
+    pub struct Pol { pub set: bool, pub rm_all: bool, pub fail_ins: Option<(usize, u64)>, pub fail_rem: Option<(usize, u64)>, pub bad: Option<(usize, u64)> }
+    #[derive(Debug)]
+    pub struct Core { pub content: Vec<u64>, pub journal: Vec<Call>, pub changed: usize, pub pol: Pol }
+    impl Core {
+        fn ins(&mut self, x: u64) -> Result<bool, MyErr> {
+            let k = self.journal.iter().filter(|c| matches!(c, Call::Ins(_))).count();
+            self.journal.push(Call::Ins(x));
+            if let Some((j, e)) = self.pol.fail_ins { if k == j { return Err(MyErr(e)); } }
+            if self.pol.set && self.content.contains(&x) { return Ok(false); }
+            self.content.push(x); self.changed += 1; Ok(true)
+        }
+        fn rem(&mut self, x: u64) -> Result<bool, MyErr> {
+            let k = self.journal.iter().filter(|c| matches!(c, Call::Rem(_))).count();
+            self.journal.push(Call::Rem(x));
+            if let Some((j, e)) = self.pol.fail_rem { if k == j { return Err(MyErr(e)); } }
+            match self.content.iter().position(|y| *y == x) {
+                None => Ok(false),
+                Some(i) => { if self.pol.rm_all { self.content.retain(|y| *y != x); } else { self.content.remove(i); } self.changed += 1; Ok(true) }
+            }
+        }
+        /// the records of the store as its enumeration delivers them: one unreadable record at position k
+        fn records(&self) -> Vec<Result<u64, MyErr>> {
+            let mut v: Vec<Result<u64, MyErr>> = self.content.iter().map(|x| Ok(*x)).collect();
+            if let Some((k, e)) = self.pol.bad { if k <= v.len() { v.insert(k, Err(MyErr(e))); } }
+            v
+        }
+    }
+    type H = Rc<RefCell<Core>>;
+    /// a graph that implements the REQUIRED methods only
+    pub struct JG(pub H);
+    impl Graph for JG {
+        type Triple<'x> = [CT; 3];
+        type Error = MyErr;
+        fn triples(&self) -> impl Iterator<Item = Result<[CT; 3], MyErr>> + '_ { self.0.borrow().records().into_iter().map(|r| r.map(|x| { assert_eq!(gname(x), 0); ct_spo(x) })) }
+    }
+    impl MutableGraph for JG {
+        type MutationError = MyErr;
+        fn insert<TS: Term, TP: Term, TO: Term>(&mut self, s: TS, _p: TP, o: TO) -> Result<bool, MyErr> { let n = n_of(o); assert!(Term::eq(&s, s_term(n % 3))); self.0.borrow_mut().ins(n) }
+        fn remove<TS: Term, TP: Term, TO: Term>(&mut self, s: TS, _p: TP, o: TO) -> Result<bool, MyErr> { let n = n_of(o); assert!(Term::eq(&s, s_term(n % 3))); self.0.borrow_mut().rem(n) }
+    }
+    /// a dataset that implements the REQUIRED methods only
+    pub struct JD(pub H);
+    impl Dataset for JD {
+        type Quad<'x> = Spog<CT>;
+        type Error = MyErr;
+        fn quads(&self) -> impl Iterator<Item = Result<Spog<CT>, MyErr>> + '_ { self.0.borrow().records().into_iter().map(|r| r.map(ct_quad)) }
+    }
+    impl MutableDataset for JD {
+        type MutationError = MyErr;
+        fn insert<TS: Term, TP: Term, TO: Term, TG: Term>(&mut self, _s: TS, _p: TP, o: TO, g: GraphName<TG>) -> Result<bool, MyErr> { self.0.borrow_mut().ins(1000 * g_of(g) + n_of(o)) }
+        fn remove<TS: Term, TP: Term, TO: Term, TG: Term>(&mut self, _s: TS, _p: TP, o: TO, g: GraphName<TG>) -> Result<bool, MyErr> { self.0.borrow_mut().rem(1000 * g_of(g) + n_of(o)) }
+    }
+
+    pub trait Code { fn code(&self) -> u64; }
+    impl Code for MyErr { fn code(&self) -> u64 { self.0 } }
+    impl Code for std::convert::Infallible { fn code(&self) -> u64 { match *self {} } }
+    impl<E: Code + std::error::Error> Code for GraphAsDatasetMutationError<E> { fn code(&self) -> u64 { match self { GraphAsDatasetMutationError::OnlyDefaultGraph => ONLY_DEFAULT, GraphAsDatasetMutationError::Graph(e) => e.code() } } }
+
+    // ---------- matchers (user-defined, so that one type covers every description) ----------
+    #[derive(Clone, Copy, Debug, PartialEq)] pub enum SD { Any, Eq(u64), Never }
+    #[derive(Clone, Copy, Debug, PartialEq)] pub enum OD { Any, Even, Lt(u64), Eq(u64), NotEq(u64), None }
+    #[derive(Clone, Copy, Debug, PartialEq)] pub enum GD { Any, Default, Eq(u64), Named }
+    #[derive(Clone, Copy, Debug, PartialEq)] pub struct MD { pub s: SD, pub o: OD, pub g: GD }
+    fn sd(d: SD, n: u64) -> bool { match d { SD::Any => true, SD::Eq(k) => n % 3 == k, SD::Never => false } }
+    fn od(d: OD, n: u64) -> bool { match d { OD::Any => true, OD::Even => n % 2 == 0, OD::Lt(k) => n < k, OD::Eq(k) => n == k, OD::NotEq(k) => n != k, OD::None => false } }
+    fn gd(d: GD, g: u64) -> bool { match d { GD::Any => true, GD::Default => g == 0, GD::Eq(k) => g == k, GD::Named => g != 0 } }
+    pub fn md(m: &MD, x: u64) -> bool { sd(m.s, tpart(x)) && od(m.o, tpart(x)) && gd(m.g, gname(x)) }
+    struct MS(SD); struct MO(OD); struct MG(GD);
+    impl TermMatcher for MS { type Term = ST; fn matches<T2: Term + ?Sized>(&self, t: &T2) -> bool { match self.0 { SD::Any => true, SD::Never => false, SD::Eq(k) => Term::eq(t, s_term(k)) } } }
+    impl TermMatcher for MO { type Term = ST; fn matches<T2: Term + ?Sized>(&self, t: &T2) -> bool { od(self.0, n_of(t.borrow_term())) } }
+    impl GraphNameMatcher for MG { type Term = ST; fn matches<T2: Term + ?Sized>(&self, g: GraphName<&T2>) -> bool { gd(self.0, g_of(g.map(|t| t.borrow_term()))) } }
+    fn c_md(m: &MD) -> String {
+        format!("(MD {} {} {})", match m.s { SD::Any => "SAny".to_string(), SD::Eq(k) => format!("(SEq {k})"), SD::Never => "SNever".into() },
+            match m.o { OD::Any => "OAny".to_string(), OD::Even => "OEven".into(), OD::Lt(k) => format!("(OLt {k})"), OD::Eq(k) => format!("(OEq {k})"), OD::NotEq(k) => format!("(ONotEq {k})"), OD::None => "ONone".into() },
+            match m.g { GD::Any => "GAny".to_string(), GD::Default => "GDefault".into(), GD::Eq(k) => format!("(GEq {k})"), GD::Named => "GNamed".into() })
+    }
+
+    // ---------- adapters over items ----------
+    #[derive(Clone, Copy, Debug, PartialEq)]
+    pub enum QD { FilterDefault, FilterNamed, FilterEven, FilterLt(u64), FilterNone, MapDropGraph, MapSetGraph(u64), MapSucc, FmNamedToDefault, FmLtSucc(u64) }
+    fn qkind(a: QD) -> super::K { use super::K; match a { QD::FilterDefault | QD::FilterNamed | QD::FilterEven | QD::FilterLt(_) | QD::FilterNone => K::F, QD::MapDropGraph | QD::MapSetGraph(_) | QD::MapSucc => K::M, _ => K::FM } }
+    fn qfilt(a: QD, x: u64) -> bool { match a { QD::FilterDefault => gname(x) == 0, QD::FilterNamed => gname(x) != 0, QD::FilterEven => tpart(x) % 2 == 0, QD::FilterLt(k) => tpart(x) < k, QD::FilterNone => false, _ => unreachable!() } }
+    fn qmap(a: QD, x: u64) -> u64 { match a { QD::MapDropGraph => tpart(x), QD::MapSetGraph(g) => 1000 * g + tpart(x), QD::MapSucc => x + 1, _ => unreachable!() } }
+    fn qfm(a: QD, x: u64) -> Option<u64> { match a { QD::FmNamedToDefault => (gname(x) != 0).then_some(tpart(x)), QD::FmLtSucc(k) => (tpart(x) < k).then_some(x + 1), _ => unreachable!() } }
+    pub fn qthrough(chain: &[QD], x: u64) -> Option<u64> { use super::K; let mut x = x; for a in chain { match qkind(*a) { K::F => if !qfilt(*a, x) { return None }, K::M => x = qmap(*a, x), K::FM => x = qfm(*a, x)? } } Some(x) }
+    fn c_qd(a: &QD) -> String { match a { QD::FilterDefault => "BFilterDefault".into(), QD::FilterNamed => "BFilterNamed".into(), QD::FilterEven => "BFilterEven".into(), QD::FilterLt(k) => format!("(BFilterLt {k})"), QD::FilterNone => "BFilterNone".into(),
+        QD::MapDropGraph => "BMapDropGraph".into(), QD::MapSetGraph(g) => format!("(BMapSetGraph {g})"), QD::MapSucc => "BMapSucc".into(), QD::FmNamedToDefault => "BFmNamedToDefault".into(), QD::FmLtSucc(k) => format!("(BFmLtSucc {k})") } }
+
+    // ---------- a type-erased source, so that one consumer type serves every adapter stack ----------
+    #[derive(Debug)]
+    struct Carrier(Box<dyn std::any::Any + Send + Sync>);
+    impl std::fmt::Display for Carrier { fn fmt(&self, f: &mut std::fmt::Formatter<'_>) -> std::fmt::Result { write!(f, "carried sink error") } }
+    impl std::error::Error for Carrier {}
+    trait DynSrc { fn step(&mut self, f: &mut dyn FnMut(u64) -> Result<(), Carrier>) -> Result<bool, StreamError<MyErr, Carrier>>; }
+    impl<S> DynSrc for S where S: Source<Error = MyErr>, for<'x> S: Source<Item<'x> = u64> {
+        fn step(&mut self, f: &mut dyn FnMut(u64) -> Result<(), Carrier>) -> Result<bool, StreamError<MyErr, Carrier>> { self.try_for_some_item(|x| f(x)) }
+    }
+    pub struct Boxed(Box<dyn DynSrc>);
+    impl Source for Boxed {
+        type Item<'x> = u64;
+        type Error = MyErr;
+        fn try_for_some_item<E, F>(&mut self, mut f: F) -> StreamResult<bool, MyErr, E> where E: std::error::Error + Send + Sync + 'static, F: FnMut(u64) -> Result<(), E> {
+            let mut g = |x: u64| f(x).map_err(|e| Carrier(Box::new(e)));
+            match self.0.step(&mut g) { Ok(b) => Ok(b), Err(StreamError::SourceError(e)) => Err(StreamError::SourceError(e)), Err(StreamError::SinkError(c)) => Err(StreamError::SinkError(*c.0.downcast::<E>().unwrap())) }
+        }
+    }
+    fn b0<S>(s: S, chain: &[QD]) -> Boxed where S: Source<Error = MyErr> + 'static, for<'x> S: Source<Item<'x> = u64> { assert!(chain.is_empty()); Boxed(Box::new(s)) }
+    macro_rules! blevel { ($name:ident, $next:ident) => {
+        fn $name<S>(s: S, chain: &[QD]) -> Boxed where S: Source<Error = MyErr> + 'static, for<'x> S: Source<Item<'x> = u64> {
+            use super::K;
+            match chain.split_first() {
+                None => Boxed(Box::new(s)),
+                Some((a, rest)) => { let a = *a; match qkind(a) {
+                    K::F => $next(s.filter_items(move |x: &u64| qfilt(a, *x)), rest),
+                    K::M => $next(s.map_items(move |x: u64| qmap(a, x)), rest),
+                    K::FM => $next(s.filter_map_items(move |x: u64| qfm(a, x)), rest),
+                } }
+            }
+        }
+    }; }
+    blevel!(b1, b0); blevel!(b2, b1); blevel!(b3, b2);
+
+    // ---------- shapes ----------
+    #[derive(Clone, Copy, Debug, PartialEq)] pub enum W { Ref, AsDataset, GraphMut(u64) }
+    #[derive(Clone, Copy, Debug, PartialEq)]
+    pub enum Shape {
+        // consumers of quads
+        D, RefD, RefRefD, GAsDs, GIntoDs, GNewDs, RefGAsDs, DGraphMutAsDs(u64), VecAsDs, BTreeAsDs,
+        // consumers of triples
+        G, RefG, RefRefG, DGraphMut(u64), DIntoGraph(u64), GAsDsGraphMut(u64), RefDGraphMut(u64), BTreeDGraphMut(u64),
+    }
+    impl Shape {
+        fn takes_quads(self) -> bool { matches!(self, Shape::D | Shape::RefD | Shape::RefRefD | Shape::GAsDs | Shape::GIntoDs | Shape::GNewDs | Shape::RefGAsDs | Shape::DGraphMutAsDs(_) | Shape::VecAsDs | Shape::BTreeAsDs) }
+        /// the wrappers between the entry point and the base store, outermost first; and whether the base is a dataset
+        fn ws(self) -> (Vec<W>, bool) { match self {
+            Shape::D => (vec![], true), Shape::RefD => (vec![W::Ref], true), Shape::RefRefD => (vec![W::Ref, W::Ref], true),
+            Shape::GAsDs | Shape::GIntoDs | Shape::GNewDs | Shape::VecAsDs | Shape::BTreeAsDs => (vec![W::AsDataset], false), Shape::RefGAsDs => (vec![W::Ref, W::AsDataset], false),
+            Shape::DGraphMutAsDs(g) => (vec![W::AsDataset, W::GraphMut(g)], true),
+            Shape::G => (vec![], false), Shape::RefG => (vec![W::Ref], false), Shape::RefRefG => (vec![W::Ref, W::Ref], false),
+            Shape::DGraphMut(g) | Shape::DIntoGraph(g) | Shape::BTreeDGraphMut(g) => (vec![W::GraphMut(g)], true), Shape::RefDGraphMut(g) => (vec![W::Ref, W::GraphMut(g)], true),
+            Shape::GAsDsGraphMut(g) => (vec![W::GraphMut(g), W::AsDataset], false),
+        } }
+        fn real(self) -> bool { matches!(self, Shape::VecAsDs | Shape::BTreeAsDs | Shape::BTreeDGraphMut(_)) }
+        fn matching_ok(self) -> bool { matches!(self, Shape::D | Shape::RefD | Shape::RefRefD | Shape::G | Shape::RefG | Shape::RefRefG | Shape::DGraphMut(_) | Shape::DIntoGraph(_) | Shape::RefDGraphMut(_)) }
+    }
+    fn c_w(w: &W) -> String { match w { W::Ref => "WRef".into(), W::AsDataset => "WAsDataset".into(), W::GraphMut(g) => format!("(WGraphMut {g})") } }
+
+    #[derive(Clone, Copy, Debug, PartialEq)]
+    pub enum Op { InsertAll, AddTo, RemoveAll, RemoveMatching(MD, usize), RetainMatching(MD, usize) }
+    #[derive(Clone, Debug, PartialEq)]
+    pub enum Out { Done(usize), Source(u64), Sink(u64) }
+
+    fn conv<E: Code + std::error::Error>(r: Result<usize, StreamError<MyErr, E>>) -> Out { match r { Ok(n) => Out::Done(n), Err(StreamError::SourceError(e)) => Out::Source(e.0), Err(StreamError::SinkError(e)) => Out::Sink(e.code()) } }
+    /// the error of remove_matching / retain_matching is the store's MutationError, into which the store's own
+    /// enumeration error has been converted: the two are told apart by their values (7xx = enumeration)
+    fn conv_m(r: Result<usize, MyErr>) -> Out { match r { Ok(n) => Out::Done(n), Err(e) if (700..800).contains(&e.0) => Out::Source(e.0), Err(e) => Out::Sink(e.0) } }
+
+    fn run_q<D: MutableDataset>(d: &mut D, op: Op, src: Boxed, add_to: bool) -> Out where D::MutationError: Code {
+        let qs = src.map_items(quad_of);
+        match op {
+            Op::InsertAll | Op::AddTo => if add_to { conv(qs.add_to_dataset(d)) } else { conv(d.insert_all(qs)) },
+            Op::RemoveAll => conv(d.remove_all(qs)),
+            _ => unreachable!(),
+        }
+    }
+    fn run_t<G: MutableGraph>(g: &mut G, op: Op, src: Boxed, add_to: bool, via_quads: bool) -> Out where G::MutationError: Code {
+        macro_rules! go { ($ts:expr) => {{ let ts = $ts; match op {
+            Op::InsertAll | Op::AddTo => if add_to { conv(ts.add_to_graph(g)) } else { conv(g.insert_all(ts)) },
+            Op::RemoveAll => conv(g.remove_all(ts)),
+            _ => unreachable!(),
+        } }}; }
+        if via_quads { go!(src.map_items(quad_of).to_triples()) } else { go!(src.map_items(|x| spo_of(tpart(x)))) }
+    }
+    fn match_q<D: MutableDataset<MutationError = MyErr, Error = MyErr>>(d: &mut D, op: Op) -> Out {
+        let p = iri("http://e/p");
+        match op {
+            Op::RemoveMatching(m, v) => conv_m(match v % 3 { 0 => d.remove_matching(MS(m.s), Any, MO(m.o), MG(m.g)), 1 => d.remove_matching(MS(m.s), [p], MO(m.o), MG(m.g)), _ => d.remove_matching(MS(m.s), |t: SimpleTerm| t.is_iri(), MO(m.o), MG(m.g)) }),
+            Op::RetainMatching(m, v) => conv_m(match v % 3 { 0 => d.retain_matching(MS(m.s), Any, MO(m.o), MG(m.g)), 1 => d.retain_matching(MS(m.s), [p], MO(m.o), MG(m.g)), _ => d.retain_matching(MS(m.s), |t: SimpleTerm| t.is_iri(), MO(m.o), MG(m.g)) }.map(|()| usize::MAX)),
+            _ => unreachable!(),
+        }
+    }
+    fn match_t<G: MutableGraph<MutationError = MyErr, Error = MyErr>>(g: &mut G, op: Op) -> Out {
+        let p = iri("http://e/p");
+        match op {
+            Op::RemoveMatching(m, v) => conv_m(match v % 3 { 0 => g.remove_matching(MS(m.s), Any, MO(m.o)), 1 => g.remove_matching(MS(m.s), [p], MO(m.o)), _ => g.remove_matching(MS(m.s), |t: SimpleTerm| t.is_iri(), MO(m.o)) }),
+            Op::RetainMatching(m, v) => conv_m(match v % 3 { 0 => g.retain_matching(MS(m.s), Any, MO(m.o)), 1 => g.retain_matching(MS(m.s), [p], MO(m.o)), _ => g.retain_matching(MS(m.s), |t: SimpleTerm| t.is_iri(), MO(m.o)) }.map(|()| usize::MAX)),
+            _ => unreachable!(),
+        }
+    }
+
+    /// an independent reading of the property for these consumers: item by item, in source order
+    struct Sim { content: Vec<u64>, journal: Vec<Call>, changed: usize, pol: Pol }
+    impl Sim {
+        fn call(&mut self, ins: bool, x: u64) -> Result<(), u64> {
+            let k = self.journal.iter().filter(|c| matches!(c, Call::Ins(_)) == ins).count();
+            self.journal.push(if ins { Call::Ins(x) } else { Call::Rem(x) });
+            if let Some((j, e)) = if ins { self.pol.fail_ins } else { self.pol.fail_rem } { if j == k { return Err(e); } }
+            if ins { if !(self.pol.set && self.content.contains(&x)) { self.content.push(x); self.changed += 1; } }
+            else if let Some(i) = self.content.iter().position(|y| *y == x) { if self.pol.rm_all { self.content.retain(|y| *y != x); } else { self.content.remove(i); } self.changed += 1; }
+            Ok(())
+        }
+        /// one item arriving at the entry point
+        fn item(&mut self, ws: &[W], ins: bool, x: u64) -> Result<(), u64> {
+            let mut x = x;
+            for w in ws { match w { W::Ref => {} W::AsDataset => { if gname(x) != 0 { return if ins { Err(ONLY_DEFAULT) } else { Ok(()) }; } } W::GraphMut(g) => x = 1000 * g + tpart(x) } }
+            self.call(ins, x)
+        }
+    }
+
+    pub fn case(idx: usize, r: &mut Rng, verbose: bool, sum: &mut Summary, cases: &mut Vec<(usize, String)>, seen: &mut std::collections::HashSet<String>) {
+        sum.evaluations += 1;
+        let g_any = |r: &mut Rng| r.below(3) as u64;
+        let shape = match r.below(18) {
+            0 => Shape::D, 1 => Shape::RefD, 2 => Shape::RefRefD, 3 => Shape::GAsDs, 4 => Shape::GIntoDs, 5 => Shape::GNewDs, 6 => Shape::RefGAsDs, 7 => Shape::DGraphMutAsDs(g_any(r)), 8 => Shape::VecAsDs, 9 => Shape::BTreeAsDs,
+            10 => Shape::G, 11 => Shape::RefG, 12 => Shape::RefRefG, 13 => Shape::DGraphMut(g_any(r)), 14 => Shape::DIntoGraph(g_any(r)), 15 => Shape::GAsDsGraphMut(if r.chance(2, 3) { 0 } else { 1 }), 16 => Shape::RefDGraphMut(g_any(r)), _ => Shape::BTreeDGraphMut(g_any(r)),
+        };
+        let (ws, base_ds) = shape.ws();
+        let pick_md = |r: &mut Rng| MD { s: *r.pick(&[SD::Any, SD::Any, SD::Eq(0), SD::Eq(1), SD::Never]), o: *r.pick(&[OD::Any, OD::Any, OD::Even, OD::Lt(4), OD::Eq(2), OD::NotEq(3), OD::None]),
+            g: if matches!(shape, Shape::D | Shape::RefD | Shape::RefRefD) { *r.pick(&[GD::Any, GD::Any, GD::Default, GD::Eq(1), GD::Named]) } else { GD::Any } };
+        let op = if shape.matching_ok() && r.chance(1, 2) { if r.chance(1, 2) { Op::RemoveMatching(pick_md(r), r.below(3)) } else { Op::RetainMatching(pick_md(r), r.below(3)) } }
+                 else { *r.pick(&[Op::InsertAll, Op::InsertAll, Op::AddTo, Op::RemoveAll]) };
+        let matching = matches!(op, Op::RemoveMatching(..) | Op::RetainMatching(..));
+        let pol = if shape.real() { Pol { set: shape != Shape::VecAsDs, rm_all: true, fail_ins: None, fail_rem: None, bad: None } } else { Pol {
+            set: r.chance(1, 2), rm_all: r.chance(1, 2),
+            fail_ins: if r.chance(1, 3) { Some((r.below(4), 200 + r.below(50) as u64)) } else { None },
+            fail_rem: if r.chance(1, 3) { Some((r.below(4), 250 + r.below(50) as u64)) } else { None },
+            bad: if matching && r.chance(1, 4) { Some((r.below(7), 700 + r.below(50) as u64)) } else { None } } };
+        // the content of the base store: duplicates unless the store is a set
+        let mut init: Vec<u64> = (0..r.below(8)).map(|_| (if base_ds { 1000 * g_any(r) } else { 0 }) + r.below(6) as u64).collect();
+        if pol.set { let mut v = vec![]; for x in &init { if !v.iter().any(|y: &u64| y == x) { v.push(*x) } } init = v; }
+        if shape == Shape::BTreeAsDs || matches!(shape, Shape::BTreeDGraphMut(_)) { init.sort(); }
+        // the source
+        let batch = r.chance(1, 3);
+        let item = |r: &mut Rng| (if r.chance(2, 5) { 1000 * (1 + r.below(2) as u64) } else { 0 }) + r.below(6) as u64;
+        let steps: super::Steps = if matching { vec![] } else if batch {
+            (0..r.below(5)).map(|_| ((0..r.below(4)).map(|_| item(r)).collect(), if r.chance(1, 5) { Some(100 + r.below(50) as u64) } else { None })).collect()
+        } else {
+            let len = r.below(8);
+            let mut src: Vec<Result<u64, u64>> = (0..len).map(|_| Ok(item(r))).collect();
+            if r.chance(1, 2) { let k = r.below(len + 1); src.insert(k, Err(100 + r.below(50) as u64)); }
+            super::of_results(&src)
+        };
+        let all_qd = [QD::FilterDefault, QD::FilterNamed, QD::FilterEven, QD::FilterLt(4), QD::FilterNone, QD::MapDropGraph, QD::MapSetGraph(1), QD::MapSucc, QD::FmNamedToDefault, QD::FmLtSucc(5)];
+        let chain: Vec<QD> = if matching { vec![] } else { (0..*r.pick(&[0usize, 0, 1, 1, 2, 3])).map(|_| *r.pick(&all_qd)).collect() };
+        let add_to = op == Op::AddTo;
+        // a consumer of triples fed from quads through to_triples() (which drops the graph name), or from triples
+        let via_quads = !shape.takes_quads() && r.chance(1, 2);
+        let pulled = Rc::new(Cell::new(0usize));
+        let mk_src = |steps: &super::Steps| -> Boxed {
+            if batch { b3(super::BatchSource { steps: steps.clone().into(), n: pulled.clone() }, &chain) }
+            else { let flat: Vec<Result<u64, MyErr>> = steps.iter().map(|(i, e)| match e { Some(e) => Err(MyErr(*e)), None => Ok(i[0]) }).collect(); b3(super::Counting { it: flat.into_iter(), n: pulled.clone() }, &chain) }
+        };
+        // ----- the real run -----
+        let core: H = Rc::new(RefCell::new(Core { content: init.clone(), journal: vec![], changed: 0, pol: pol.clone() }));
+        let mut real_content: Option<Vec<u64>> = None;
+        let gt = |g: u64| ct_g(g);
+        let out: Out = if matching { match shape {
+            Shape::D => match_q(&mut JD(core.clone()), op), Shape::RefD => match_q(&mut &mut JD(core.clone()), op), Shape::RefRefD => match_q(&mut &mut &mut JD(core.clone()), op),
+            Shape::G => match_t(&mut JG(core.clone()), op), Shape::RefG => match_t(&mut &mut JG(core.clone()), op), Shape::RefRefG => match_t(&mut &mut &mut JG(core.clone()), op),
+            Shape::DGraphMut(g) => match_t(&mut JD(core.clone()).graph_mut(gt(g)), op), Shape::DIntoGraph(g) => match_t(&mut DatasetGraph::new(JD(core.clone()), gt(g)), op),
+            Shape::RefDGraphMut(g) => match_t(&mut &mut JD(core.clone()).graph_mut(gt(g)), op),
+            _ => unreachable!(),
+        } } else { let src = mk_src(&steps); match shape {
+            Shape::D => run_q(&mut JD(core.clone()), op, src, add_to), Shape::RefD => run_q(&mut &mut JD(core.clone()), op, src, add_to), Shape::RefRefD => run_q(&mut &mut &mut JD(core.clone()), op, src, add_to),
+            Shape::GAsDs => run_q(&mut JG(core.clone()).as_dataset_mut(), op, src, add_to),
+            Shape::GIntoDs => { let mut d = JG(core.clone()).into_dataset(); let o = run_q(&mut d, op, src, add_to); let _g: JG = d.unwrap(); o }
+            Shape::GNewDs => { let mut g = JG(core.clone()); run_q(&mut GraphAsDataset::new(&mut g), op, src, add_to) }
+            Shape::RefGAsDs => { let mut g = JG(core.clone()); let mut d = g.as_dataset_mut(); run_q(&mut &mut d, op, src, add_to) }
+            Shape::DGraphMutAsDs(g) => { let mut d = JD(core.clone()); let mut gm = d.graph_mut(gt(g)); run_q(&mut gm.as_dataset_mut(), op, src, add_to) }
+            Shape::VecAsDs => { let mut v: Vec<[ST; 3]> = init.iter().map(|x| spo_of(*x)).collect(); let o = run_q(&mut v.as_dataset_mut(), op, src, add_to); real_content = Some(v.iter().map(|t| n_of(&t[2])).collect()); o }
+            Shape::BTreeAsDs => { let mut v: BTreeSet<[ST; 3]> = init.iter().map(|x| spo_of(*x)).collect(); let o = run_q(&mut v.as_dataset_mut(), op, src, add_to); real_content = Some(v.iter().map(|t| n_of(&t[2])).collect()); o }
+            Shape::G => run_t(&mut JG(core.clone()), op, src, add_to, via_quads), Shape::RefG => run_t(&mut &mut JG(core.clone()), op, src, add_to, via_quads), Shape::RefRefG => run_t(&mut &mut &mut JG(core.clone()), op, src, add_to, via_quads),
+            Shape::DGraphMut(g) => run_t(&mut JD(core.clone()).graph_mut(gt(g)), op, src, add_to, via_quads),
+            Shape::DIntoGraph(g) => run_t(&mut DatasetGraph::new(JD(core.clone()), gt(g)), op, src, add_to, via_quads),
+            Shape::RefDGraphMut(g) => run_t(&mut &mut JD(core.clone()).graph_mut(gt(g)), op, src, add_to, via_quads),
+            Shape::GAsDsGraphMut(g) => { let mut d = JG(core.clone()).into_dataset(); run_t(&mut d.graph_mut(gt(g)), op, src, add_to, via_quads) }
+            Shape::BTreeDGraphMut(g) => { let mut v: BTreeSet<Spog<ST>> = init.iter().map(|x| quad_of(*x)).collect(); let o = run_t(&mut v.graph_mut(g_term(g)), op, src, add_to, via_quads); real_content = Some(v.iter().map(|q| 1000 * g_of(q.1.as_ref()) + n_of(&q.0[2])).collect()); o }
+        } };
+        let (content, journal, changed) = { let c = core.borrow(); (real_content.clone().unwrap_or(c.content.clone()), c.journal.clone(), c.changed) };
+        // ----- the oracle -----
+        let mut sim = Sim { content: init.clone(), journal: vec![], changed: 0, pol: pol.clone() };
+        let ins = matches!(op, Op::InsertAll | Op::AddTo);
+        let mut exp_out: Option<Out> = None; let mut exp_pulled = steps.len();
+        if matching {
+            // the stream: the records of the store as seen through the wrappers, filtered by the matchers, into the store's own removal
+            let (m, retain) = match op { Op::RemoveMatching(m, _) => (m, false), Op::RetainMatching(m, _) => (m, true), _ => unreachable!() };
+            let view_g = ws.iter().find_map(|w| if let W::GraphMut(g) = w { Some(*g) } else { None });
+            let mut recs: Vec<Result<u64, u64>> = init.iter().map(|x| Ok(*x)).collect();
+            if let Some((k, e)) = pol.bad { if k <= recs.len() { recs.insert(k, Err(e)); } }
+            let seen_by_view: Vec<Result<u64, u64>> = recs.into_iter().filter(|x| match (x, view_g) { (Ok(x), Some(g)) => gname(*x) == g, _ => true }).map(|x| x.map(|x| if view_g.is_some() { tpart(x) } else { x })).collect();
+            let selected: Vec<Result<u64, u64>> = seen_by_view.into_iter().filter(|x| match x { Ok(x) => md(&m, *x) != retain, Err(_) => true }).collect();
+            let stop = selected.iter().position(|x| x.is_err());
+            // the removals happen in store order; a store error while it is listed is reported with its value.
+            // (Whether the items listed before the unreadable record are removed is left open here: this
+            // implementation lists everything first and removes nothing in that case; the Coq model says so.)
+            let wanted: Vec<u64> = selected.iter().take(stop.unwrap_or(selected.len())).map(|x| *x.as_ref().unwrap()).collect();
+            if let Some(k) = stop { exp_out = Some(Out::Source(*selected[k].as_ref().unwrap_err())); } else {
+                for x in &wanted { if let Err(e) = sim.item(&ws, false, *x) { exp_out = Some(Out::Sink(e)); break; } }
+            }
+            if exp_out.is_none() { exp_out = Some(Out::Done(sim.changed)); }
+        } else {
+            'outer: for (i, (items, oe)) in steps.iter().enumerate() {
+                for x in items { if let Some(y) = qthrough(&chain, *x) {
+                    let y = if shape.takes_quads() { y } else { tpart(y) };
+                    if let Err(e) = sim.item(&ws, ins, y) { exp_out = Some(Out::Sink(e)); exp_pulled = i + 1; break 'outer; }
+                } }
+                if let Some(e) = oe { exp_out = Some(Out::Source(*e)); exp_pulled = i + 1; break; }
+            }
+            if exp_out.is_none() { exp_out = Some(Out::Done(sim.changed)); }
+        }
+        let exp_out = exp_out.unwrap();
+        let text = format!("bulk: consumer={shape:?} (wrappers {ws:?} over a {} {}) op={op:?}{} store-policy={pol:?} initial-content={init:?} source={} steps={steps:?} chain={chain:?}",
+            if shape.real() { "library" } else { "journaling" }, if base_ds { "dataset" } else { "graph" }, if via_quads { " fed through to_triples()" } else { "" }, if batch { "batching" } else { "iterator" });
+        let mut problems: Vec<String> = vec![];
+        // outcome: side and value; the count only where it is significant (set-like stores) or when it is the number of effective changes of the journaling store
+        let out_cmp = |o: &Out| match o { Out::Done(_) => Out::Done(0), x => x.clone() };
+        if out_cmp(&out) != out_cmp(&exp_out) { problems.push(format!("outcome {out:?}, expected {exp_out:?}")); }
+        if let (Out::Done(n), Out::Done(m)) = (&out, &exp_out) { if *n != usize::MAX && !shape.real() && n != m { problems.push(format!("returned count {n}, but {m} calls changed the store")); } }
+        if !shape.real() {
+            let stopped_on_listing = matching && matches!(exp_out, Out::Source(_));
+            if stopped_on_listing { if !sim_prefix_ok(&journal, &init, &ws, &op, &pol) { problems.push(format!("the store failed while it was listed, and received the calls {journal:?}, which are not a prefix of the removals in store order")); } }
+            else {
+                if journal != sim.journal { problems.push(format!("the store received the calls {journal:?}, expected {:?} (every item that passes exactly once, in source order, none after the failure)", sim.journal)); }
+                if content != sim.content { problems.push(format!("store content {content:?}, expected {:?}", sim.content)); }
+            }
+        } else {
+            let mut a = content.clone(); let mut b = sim.content.clone(); if shape != Shape::VecAsDs || !ins { a.sort(); b.sort(); }
+            if a != b { problems.push(format!("store content {a:?}, expected {b:?}")); }
+        }
+        if !matching { let p = if !batch && matches!(out, Out::Done(_)) { pulled.get().saturating_sub(1) } else { pulled.get() }; if p != exp_pulled { problems.push(format!("{p} elements pulled from the source, expected {exp_pulled}")); } }
+        for p in &problems { sum.oracle_failures.push((idx.to_string(), format!("{text}: {p}"))); }
+        if verbose { println!("CASE {idx}: {text}\nIMPL   out={out:?} journal={journal:?} content={content:?} changed={changed}\nORACLE out={exp_out:?} journal={:?} content={:?}", sim.journal, sim.content); }
+        sum.bump(&format!("bulk:op:{}", match op { Op::InsertAll => "insert_all", Op::AddTo => "add_to", Op::RemoveAll => "remove_all", Op::RemoveMatching(..) => "remove_matching", Op::RetainMatching(..) => "retain_matching" }));
+        sum.bump(&format!("bulk:consumer:{}", format!("{shape:?}").split('(').next().unwrap()));
+        sum.bump(&format!("bulk:outcome:{}", match exp_out { Out::Done(_) => "done", Out::Source(_) => "source-error", Out::Sink(ONLY_DEFAULT) => "sink-error(refused item)", Out::Sink(_) => "sink-error" }));
+        if { let mut e: Vec<String> = sim.journal.iter().map(|c| format!("{c:?}")).collect(); e.sort(); e.dedup(); e.len() } != sim.journal.len() { sum.bump("bulk:same-item-in-several-calls"); }
+        let nontrivial = !matches!(exp_out, Out::Done(_)) && !sim.journal.is_empty() || sim.journal.len() >= 2;
+        if seen.insert(text.clone()) && nontrivial { sum.distinct_nontrivial += 1; }
+        if nontrivial && sum.samples.iter().filter(|s| s.contains("bulk:")).count() < 3 { sum.samples.push(format!("case {idx}: {text} => {out:?} calls={journal:?}")); }
+        // ----- the Coq case -----
+        if shape.real() { return; }
+        let c_pol = format!("(mkpol {} {} {} {} {})", coq_bool(pol.set), coq_bool(pol.rm_all), c_fault(pol.fail_ins), c_fault(pol.fail_rem), c_fault(pol.bad));
+        let c_ws = coq_list(ws.iter().map(c_w));
+        let c_init = coq_list(init.iter().map(|x| x.to_string()));
+        let c_journal = coq_list(journal.iter().map(|c| match c { Call::Ins(x) => format!("CInsert {x}"), Call::Rem(x) => format!("CRemove {x}") }));
+        let c_content = coq_list(content.iter().map(|x| x.to_string()));
+        let c_out = match &out { Out::Done(_) => "KDone".to_string(), Out::Source(e) => format!("(KSource {e})"), Out::Sink(e) => format!("(KSink {e})") };
+        match op {
+            Op::RemoveMatching(m, _) | Op::RetainMatching(m, _) => cases.push((idx, format!("run_matching_ok {} {c_pol} {c_ws} {c_init} {} {c_journal} {c_content} {changed}%nat {c_out}", coq_bool(matches!(op, Op::RetainMatching(..))), c_md(&m)))),
+            _ => { let mut c_chain: Vec<String> = chain.iter().map(c_qd).collect(); if !shape.takes_quads() { c_chain.push("BMapDropGraph".into()); }
+                cases.push((idx, format!("run_bulk_ok {} {c_pol} {c_ws} {c_init} {} {} {c_journal} {c_content} {changed}%nat {c_out} {}", coq_bool(ins), super::c_steps(&steps), coq_list(c_chain), if !batch && matches!(out, Out::Done(_)) { pulled.get().saturating_sub(1) } else { pulled.get() }))); }
+        }
+    }
+    fn c_fault(f: Option<(usize, u64)>) -> String { match f { None => "None".into(), Some((j, e)) => format!("(Some ({j}%nat, {e}))") } }
+    /// when the store fails while it is listed: whatever was removed must be a prefix of the removals in store order
+    fn sim_prefix_ok(journal: &[Call], init: &[u64], ws: &[W], op: &Op, pol: &Pol) -> bool {
+        let (m, retain) = match op { Op::RemoveMatching(m, _) => (*m, false), Op::RetainMatching(m, _) => (*m, true), _ => return false };
+        let view_g = ws.iter().find_map(|w| if let W::GraphMut(g) = w { Some(*g) } else { None });
+        let k = pol.bad.map(|b| b.0).unwrap_or(init.len()).min(init.len());
+        let wanted: Vec<Call> = init[..k].iter().filter(|x| view_g.map_or(true, |g| gname(**x) == g)).filter(|x| md(&m, if view_g.is_some() { tpart(**x) } else { **x }) != retain).map(|x| Call::Rem(*x)).collect();
+        journal.len() <= wanted.len() && wanted[..journal.len()] == *journal
+    }
+}
+
+/// Serializers over writers that fail in write, in flush, or in both, while the source may fail as well.
+/// The source and the writer share one event log: the error reported must be that of the FIRST failure in the log,
+/// on the right side and with its original value.
+mod flushy {
+    use sophia_api::prelude::*;
+    use sophia_api::quad::Spog;
+    use sophia_api::serializer::{QuadSerializer, TripleSerializer};
+    use sophia_api::source::{QuadSource, Source, StreamError, TripleSource};
+    use sophia_jsonld::{JsonLdOptions, JsonLdSerializer};
+    use sophia_turtle::serializer::nq::NqSerializer;
+    use sophia_turtle::serializer::nt::NtSerializer;
+    use sophia_turtle::serializer::trig::{TrigConfig, TrigSerializer};
+    use sophia_turtle::serializer::turtle::{TurtleConfig, TurtleSerializer};
+    use sophia_xml::serializer::{RdfXmlConfig, RdfXmlSerializer};
+    use std::cell::RefCell;
+    use std::collections::VecDeque;
+    use std::io::{self, Write};
+    use std::rc::Rc;
+    use verif_harness::*;
+
+    type Q = Spog<ST>;
+    #[derive(Clone, Debug, PartialEq)]
+    pub enum Ev { Pull(usize), PullErr(u64), PullEnd, Write { asked: usize, res: Result<usize, u64> }, Flush(Result<(), u64>) }
+    type Log = Rc<RefCell<Vec<Ev>>>;
+    struct LoggedIter { items: VecDeque<Result<Q, u64>>, i: usize, log: Log }
+    impl Iterator for LoggedIter {
+        type Item = Result<Q, MyErr>;
+        fn next(&mut self) -> Option<Self::Item> {
+            match self.items.pop_front() {
+                None => { self.log.borrow_mut().push(Ev::PullEnd); None }
+                Some(Ok(q)) => { self.log.borrow_mut().push(Ev::Pull(self.i)); self.i += 1; Some(Ok(q)) }
+                Some(Err(e)) => { self.log.borrow_mut().push(Ev::PullErr(e)); self.i += 1; Some(Err(MyErr(e))) }
+            }
+        }
+    }
+    #[derive(Clone, Copy, Debug, PartialEq)] pub enum FP { Never, Always, FirstOnly, AfterFirst }
+    #[derive(Clone, Copy, Debug, PartialEq)] pub struct WP { budget: Option<usize>, cap: usize, wcode: u64, flush: FP, fcode: u64 }
+    struct Probe { wp: WP, acc: Vec<u8>, log: Log, flushes: usize }
+    impl Write for Probe {
+        fn write(&mut self, buf: &[u8]) -> io::Result<usize> {
+            if buf.is_empty() { self.log.borrow_mut().push(Ev::Write { asked: 0, res: Ok(0) }); return Ok(0); }
+            match self.wp.budget {
+                Some(b) if self.acc.len() >= b => { self.log.borrow_mut().push(Ev::Write { asked: buf.len(), res: Err(self.wp.wcode) }); Err(io::Error::new(io::ErrorKind::Other, MyErr(self.wp.wcode))) }
+                _ => { let room = self.wp.budget.map_or(usize::MAX, |b| b - self.acc.len()); let n = buf.len().min(self.wp.cap).min(room); self.acc.extend_from_slice(&buf[..n]); self.log.borrow_mut().push(Ev::Write { asked: buf.len(), res: Ok(n) }); Ok(n) }
+            }
+        }
+        fn flush(&mut self) -> io::Result<()> {
+            self.flushes += 1;
+            let fail = match self.wp.flush { FP::Never => false, FP::Always => true, FP::FirstOnly => self.flushes == 1, FP::AfterFirst => self.flushes > 1 };
+            self.log.borrow_mut().push(Ev::Flush(if fail { Err(self.wp.fcode) } else { Ok(()) }));
+            if fail { Err(io::Error::new(io::ErrorKind::BrokenPipe, MyErr(self.wp.fcode))) } else { Ok(()) }
+        }
+    }
+    #[derive(Clone, Copy, Debug, PartialEq)] pub enum Wrap { Bare, ByRef, Buf(usize), Line }
+    #[derive(Clone, Copy, Debug, PartialEq)] pub enum Ser { Nt, Nq, Turtle(bool), Trig(bool), Xml(usize), JsonLd(u16) }
+    impl Ser { fn quads(self) -> bool { matches!(self, Ser::Nq | Ser::Trig(_) | Ser::JsonLd(_)) }
+               fn flushes_at_end(self) -> bool { matches!(self, Ser::Turtle(_) | Ser::Trig(_) | Ser::Xml(_)) } }
+
+    /// the original error value, wherever the error type of the serializer keeps it
+    fn find_code(e: &(dyn std::error::Error + 'static)) -> Option<u64> {
+        if let Some(m) = e.downcast_ref::<MyErr>() { return Some(m.0); }
+        if let Some(i) = e.downcast_ref::<io::Error>() { if let Some(inner) = i.get_ref() { let inner: &(dyn std::error::Error + 'static) = inner; if let Some(c) = find_code(inner) { return Some(c); } } }
+        // quick-xml hands io errors over as Arc<io::Error>
+        if let Some(i) = e.downcast_ref::<std::sync::Arc<io::Error>>() { let inner: &(dyn std::error::Error + 'static) = &**i; if let Some(c) = find_code(inner) { return Some(c); } }
+        e.source().and_then(find_code)
+    }
+    #[derive(Clone, Debug, PartialEq)] pub enum Out { Done, Source(u64), Sink(Option<u64>, String) }
+    fn conv<E: std::error::Error + 'static>(r: Result<(), StreamError<MyErr, E>>) -> Out { match r { Ok(()) => Out::Done, Err(StreamError::SourceError(e)) => Out::Source(e.0), Err(StreamError::SinkError(e)) => Out::Sink(find_code(&e), format!("{e:?}")) } }
+
+    /// run one serializer over `w`; returns the outcome and the length of the log when the serializer returned
+    fn ser_run<W: Write, S>(w: W, ser: Ser, src: S, log: &Log) -> (Out, usize) where S: QuadSource<Error = MyErr> {
+        macro_rules! fin { ($s:ident, $call:expr) => {{ let mut $s = $s; let o = conv($call.map(|_| ())); let n = log.borrow().len(); drop($s); (o, n) }}; }
+        match ser {
+            Ser::Nt => { let s = NtSerializer::new(w); fin!(s, s.serialize_triples(src.to_triples())) }
+            Ser::Nq => { let s = NqSerializer::new(w); fin!(s, s.serialize_quads(src)) }
+            Ser::Turtle(pretty) => { let s = TurtleSerializer::new_with_config(w, TurtleConfig::new().with_pretty(pretty)); fin!(s, s.serialize_triples(src.to_triples())) }
+            Ser::Trig(pretty) => { let s = TrigSerializer::new_with_config(w, TrigConfig::new().with_pretty(pretty)); fin!(s, s.serialize_quads(src)) }
+            Ser::Xml(ind) => { let s = RdfXmlSerializer::new_with_config(w, RdfXmlConfig::new().with_indentation(ind)); fin!(s, s.serialize_triples(src.to_triples())) }
+            Ser::JsonLd(sp) => { let s = JsonLdSerializer::new_with_options(w, JsonLdOptions::new().with_spaces(sp)); fin!(s, s.serialize_quads(src)) }
+        }
+    }
+    fn reference(ser: Ser, items: &[Q]) -> Vec<u8> {
+        let log: Log = Rc::new(RefCell::new(vec![]));
+        let mut out: Vec<u8> = vec![];
+        let (o, _) = ser_run(&mut out, ser, items.to_vec().into_iter().map(Ok::<Q, MyErr>), &log);
+        assert_eq!(o, Out::Done, "reference run");
+        out
+    }
+
+    pub fn case(idx: usize, r: &mut Rng, verbose: bool, sum: &mut Summary, cases: &mut Vec<(usize, String)>, seen: &mut std::collections::HashSet<String>) {
+        sum.evaluations += 1;
+        let xs = format!("{XSD}string");
+        let subj = [iri("http://e/a"), iri("http://e/b"), bnode("x")];
+        let pred = [iri("http://e/p1"), iri("http://e/p2"), iri(&format!("{RDF}type"))];
+        let obj = [iri("http://e/o"), bnode("y"), lit_dt("plain", &xs), lit_dt("7", &format!("{XSD}integer")), lit_lang("x", "en"), lit_dt("line\nbreak \"q\"", &xs)];
+        let gn = [None, None, Some(iri("http://e/g1")), Some(bnode("gb"))];
+        let ser = *r.pick(&[Ser::Nt, Ser::Nt, Ser::Nq, Ser::Nq, Ser::Turtle(false), Ser::Turtle(true), Ser::Trig(false), Ser::Trig(true), Ser::Xml(0), Ser::Xml(2), Ser::JsonLd(0), Ser::JsonLd(2)]);
+        let len = r.below(6);
+        let items: Vec<Q> = (0..len).map(|_| ([r.pick(&subj).clone(), r.pick(&pred).clone(), r.pick(&obj).clone()], if ser.quads() { r.pick(&gn).clone() } else { None })).collect();
+        let src_err: Option<(usize, u64)> = if r.chance(3, 5) { Some((r.below(len + 1), 100 + r.below(50) as u64)) } else { None };
+        // an adapter between the source and the serializer
+        let filter = r.chance(1, 3);
+        let passes = |q: &Q| !filter || !Term::eq(&q.0[1], iri("http://e/p2"));
+        let before: Vec<Q> = items.iter().take(src_err.map_or(len, |x| x.0)).filter(|q| passes(q)).cloned().collect();
+        let ref_prefix = reference(ser, &before);
+        let wrap = *r.pick(&[Wrap::Bare, Wrap::Bare, Wrap::ByRef, Wrap::Buf(8), Wrap::Buf(64), Wrap::Buf(8192), Wrap::Line]);
+        let wp = WP {
+            budget: match r.below(5) { 0 | 1 => None, 2 => Some(r.below(ref_prefix.len() + 10)), 3 => Some(ref_prefix.len()), _ => Some(r.below(ref_prefix.len().max(1))) },
+            cap: *r.pick(&[1usize, 3, 1000, 1000]), wcode: 300 + r.below(50) as u64,
+            flush: *r.pick(&[FP::Never, FP::Always, FP::Always, FP::FirstOnly, FP::AfterFirst]), fcode: 500 + r.below(50) as u64 };
+        let log: Log = Rc::new(RefCell::new(vec![]));
+        let mk = |log: &Log| { let mut v: VecDeque<Result<Q, u64>> = items.iter().cloned().map(Ok).collect(); if let Some((k, e)) = src_err { v.insert(k, Err(e)); } LoggedIter { items: v, i: 0, log: log.clone() } };
+        let mut probe = Probe { wp, acc: vec![], log: log.clone(), flushes: 0 };
+        macro_rules! with_src { ($w:expr) => { if filter { ser_run($w, ser, mk(&log).filter_quads(|q: &Q| !Term::eq(&q.0[1], iri("http://e/p2"))), &log) } else { ser_run($w, ser, mk(&log), &log) } }; }
+        let (out, n_ret) = match wrap {
+            Wrap::Bare => { let r = with_src!(&mut probe); r }
+            Wrap::ByRef => { let mut w = &mut probe; with_src!(&mut w) }
+            Wrap::Buf(c) => with_src!(io::BufWriter::with_capacity(c, &mut probe)),
+            Wrap::Line => with_src!(io::LineWriter::new(&mut probe)),
+        };
+        let events: Vec<Ev> = log.borrow()[..n_ret].to_vec();
+        let acc_at_return_unknown = matches!(wrap, Wrap::Buf(_) | Wrap::Line); // the wrapper is dropped (and flushes what it holds) after the serializer has returned
+        let acc = probe.acc.clone();
+        let text = format!("flush: serializer={ser:?} writer={wp:?} behind {wrap:?} items={} source_fails_at={src_err:?} adapter={}", items.iter().map(|q| format!("{q:?}")).collect::<Vec<_>>().join(" | "), if filter { "filter(p != p2)" } else { "none" });
+        // ----- the oracle -----
+        let mut problems: Vec<String> = vec![];
+        let is_fail = |e: &Ev| matches!(e, Ev::PullErr(_) | Ev::Write { res: Err(_), .. } | Ev::Flush(Err(_)));
+        let first = events.iter().position(is_fail);
+        let exp: Out = match first.map(|i| &events[i]) { None => Out::Done, Some(Ev::PullErr(e)) => Out::Source(*e), Some(Ev::Write { res: Err(c), .. }) | Some(Ev::Flush(Err(c))) => Out::Sink(Some(*c), String::new()), _ => unreachable!() };
+        match (&out, &exp) {
+            (Out::Done, Out::Done) => {}
+            (Out::Source(a), Out::Source(b)) if a == b => {}
+            (Out::Sink(Some(a), _), Out::Sink(Some(b), _)) if a == b => {}
+            (Out::Sink(None, s), Out::Sink(_, _)) => problems.push(format!("the sink error does not carry the writer's error value: {s}")),
+            _ => problems.push(format!("outcome {out:?}, but the first failure in the order of events is {:?} (events: {events:?})", first.map(|i| &events[i]))),
+        }
+        if let Some(i) = first {
+            if events[i + 1..].iter().any(|e| matches!(e, Ev::Pull(_) | Ev::PullErr(_) | Ev::PullEnd)) { problems.push(format!("the source was pulled again after the first failure (events: {events:?})")); }
+            if !matches!(events[i], Ev::PullErr(_)) && matches!(wrap, Wrap::Bare | Wrap::ByRef) && events[i + 1..].iter().any(|e| matches!(e, Ev::Write { .. } | Ev::Flush(_))) { problems.push(format!("the writer was called again after it had reported an error (events: {events:?})")); }
+        }
+        if src_err.is_none() && out == Out::Done && !events.contains(&Ev::PullEnd) { problems.push("success reported although the source was not exhausted".into()); }
+        if events.iter().filter(|e| matches!(e, Ev::Pull(_))).count() > items.len() { problems.push("more pulls than items".into()); }
+        // what the writer accepted is the beginning of the serialization of exactly the items before the failure
+        // (the JSON-LD serializer orders the keys of its objects by hash: only the size of its output is reproducible)
+        let unordered = matches!(ser, Ser::JsonLd(_));
+        if unordered { if acc.len() > ref_prefix.len() { problems.push(format!("the writer accepted {} bytes, more than the serialization of the items before the failure ({})", acc.len(), ref_prefix.len())); } }
+        else if !ref_prefix.starts_with(&acc) { problems.push(format!("the writer accepted {:?}, which is not a prefix of the serialization of the items before the failure {:?}", String::from_utf8_lossy(&acc), String::from_utf8_lossy(&ref_prefix))); }
+        let writer_silent = wp.budget.map_or(true, |b| b > ref_prefix.len()) ;
+        if writer_silent && !acc_at_return_unknown {
+            if out == Out::Done && (if unordered { acc.len() != ref_prefix.len() } else { acc != ref_prefix }) { problems.push("success, but the writer did not receive the whole serialization".into()); }
+            if matches!(ser, Ser::Nt | Ser::Nq) && acc != ref_prefix { problems.push(format!("the writer accepts everything, but it received {:?} instead of the statements before the failure {:?}", String::from_utf8_lossy(&acc), String::from_utf8_lossy(&ref_prefix))); }
+        }
+        for p in &problems { sum.oracle_failures.push((idx.to_string(), format!("{text}: {p}"))); }
+        if verbose { println!("CASE {idx}: {text}\nIMPL out={out:?} accepted={:?}\nEVENTS {events:?}\nORACLE {exp:?} prefix={:?}", String::from_utf8_lossy(&acc), String::from_utf8_lossy(&ref_prefix)); }
+        sum.bump(&format!("flush:ser:{}", format!("{ser:?}").split('(').next().unwrap()));
+        sum.bump(&format!("flush:outcome:{}", match (&exp, first.map(|i| &events[i])) { (Out::Done, _) => "done", (Out::Source(_), _) => "source-error", (_, Some(Ev::Flush(_))) => "sink-error(flush)", _ => "sink-error(write)" }));
+        let n_fail = events.iter().filter(|e| is_fail(e)).count() + log.borrow()[n_ret..].iter().filter(|e| is_fail(e)).count();
+        let both = src_err.is_some() && wp.flush != FP::Never;
+        if both { sum.bump("flush:source-fails-and-flush-would-fail"); }
+        let _ = n_fail;
+        if seen.insert(text.clone()) && exp != Out::Done && !acc.is_empty() { sum.distinct_nontrivial += 1; }
+        if both && exp != Out::Done && sum.samples.iter().filter(|s| s.contains("flush:")).count() < 2 { sum.samples.push(format!("case {idx}: {text} => {out:?}")); }
+        // ----- the Coq case (writers reached directly; a BufWriter decides by itself when the inner writer is called) -----
+        if !matches!(wrap, Wrap::Bare | Wrap::ByRef) { return; }
+        let flushes = events.iter().filter(|e| matches!(e, Ev::Flush(_))).count();
+        let c_mode = if ser.flushes_at_end() { "FlushAtEnd" } else { "NoFlush" };
+        let c_ffail = match wp.flush { FP::Always | FP::FirstOnly => format!("(Some {})", wp.fcode), _ => "None".into() };
+        let c_out = match &out { Out::Done => "KDone".to_string(), Out::Source(e) => format!("(KSource {e})"), Out::Sink(c, _) => format!("(KSink {})", c.unwrap_or(0)) };
+        if matches!(ser, Ser::Nt | Ser::Nq) {
+            // statement level: item i is the number 2 i (+ 1 if the adapter drops it); the writer fails during the first line that does not fit
+            let codes: Vec<u64> = items.iter().enumerate().map(|(i, q)| 2 * i as u64 + if passes(q) { 0 } else { 1 }).collect();
+            let mut c_src: Vec<String> = codes.iter().map(|c| format!("inl {c}")).collect(); if let Some((k, e)) = src_err { c_src.insert(k, format!("inr {e}")); }
+            let all_passing: Vec<&Q> = items.iter().filter(|q| passes(q)).collect();
+            let mut end = 0usize; let mut wfault = "None".to_string();
+            if let Some(b) = wp.budget { for (j, q) in all_passing.iter().enumerate() { end += super::concrete::canon_quad(&((*q).clone())).len(); if end > b { wfault = format!("(Some ({j}%nat, {}))", wp.wcode); break; } } }
+            let n_lines = acc.iter().filter(|c| **c == b'\n').count();
+            let trace: Vec<u64> = codes.iter().filter(|c| *c % 2 == 0).take(n_lines).cloned().collect();
+            cases.push((idx, format!("run_flush_lines_ok {c_mode} (of_results {}) [DFilterEven] {wfault} {c_ffail} {} {c_out} {flushes}%nat", coq_list(c_src), coq_list(trace.iter().map(|x| x.to_string())))));
+        } else {
+            // document level: does a write fail before the source does?  the bytes this serializer emits for this very source, on a writer that accepts everything
+            let log2: Log = Rc::new(RefCell::new(vec![]));
+            let mut all: Vec<u8> = vec![];
+            let _ = if filter { ser_run(&mut all, ser, mk(&log2).filter_quads(|q: &Q| !Term::eq(&q.0[1], iri("http://e/p2"))), &log2) } else { ser_run(&mut all, ser, mk(&log2), &log2) };
+            let c_wfail = match wp.budget { Some(b) if all.len() > b => format!("(Some {})", wp.wcode), _ => "None".into() };
+            // a serializer that buffers the whole source first meets the source error before any write
+            let c_src_err = match src_err { Some((_, e)) => format!("(Some {e})"), None => "None".into() };
+            cases.push((idx, format!("run_flush_ok {c_mode} {c_src_err} {c_wfail} {c_ffail} {c_out} {flushes}%nat")));
+        }
     }
 }
